@@ -2914,11 +2914,12 @@ impl Interpreter {
             (new_env, Some(guard))
         };
 
-        // Set the generator's environment as the current environment
+        // Set the generator's environment as the current environment. A freshly created function
+        // environment only needs its guard for the duration of this resumption: afterwards the
+        // generator state (func_env / current_env) references it. (Pushing the guard on the
+        // interpreter's guard stack leaked it: nothing ever popped it.)
         self.env = gen_env;
-        if let Some(guard) = env_guard {
-            self.push_env_guard(guard);
-        }
+        let _env_guard = env_guard;
 
         let vm_guard = self.heap.create_guard();
 
